@@ -273,6 +273,28 @@ def run(rep, tier):
                  lambda I, mode: I.call_function(fn_ov, [Tup([a1, a2, "x"], "Interval"), Tup([b1, b2, "y"], "Interval")], {"boundaryInclusive": mode}),
                  lambda O, mode: (O.lt(a1, b2) and O.lt(b1, a2)) or (mode and (O.eq(a1, b2) or O.eq(a2, b1))),
                  "two intervals in any relation x boundaryInclusive", lambda I, g, w: None if bool(g) == bool(w) else "code %r, spec %r" % (g, w))
+    # thresholds: the overlap must be at least a given time / a given share of the joint extent
+    tau = at.var("tau")
+    at.const(0, "0")
+    at.rel("0", "<", "tau")
+
+    def ov_len(O):
+        lo_ = a1 if O.ge(a1, b1) else b1
+        hi_ = a2 if O.le(a2, b2) else b2
+        return hi_ - lo_  # may be negative: no overlap
+
+    def ov_thr_spec(O, mode):
+        ov = ov_len(O)
+        if not O.gt(ov, Lin.num(0)):
+            return False
+        if mode == "time":
+            return O.ge(ov, tau)
+        total = (a2 if O.ge(a2, b2) else b2) - (a1 if O.le(a1, b1) else b1)
+        return O.ge(ov, total.scale(mode[1]))
+    from fractions import Fraction as _F
+    simple_table(rep, "Q-overlap", "utilities.utils:intervalOverlapCheck", at, ["time", ("percent", _F(1, 2)), ("percent", _F(1, 5))],
+                 lambda I, mode: I.call_function(fn_ov, [Tup([a1, a2, "x"], "Interval"), Tup([b1, b2, "y"], "Interval")], {"timeThreshold": tau} if mode == "time" else {"percentThreshold": Lin.num(mode[1]).as_float()}),
+                 ov_thr_spec, "two intervals in any relation x timeThreshold tau > 0 / percentThreshold 0.5, 0.2", lambda I, g, w: None if bool(g) == bool(w) else "code %r, spec %r" % (g, w))
 
     equality_tables(rep, tier)
     validate_tables(rep, tier)
